@@ -13,6 +13,7 @@
 
 from __future__ import annotations
 
+import os
 import itertools
 
 import z3
@@ -60,11 +61,17 @@ def is_file(n: str, nodes) -> bool:
 # (b) construction
 
 
-def construction_outcome(nodes, cands, k, present):
+def construction_outcome(nodes, cands, k, present, reverse=False):
+    """cands may name importees that are NOT modules of the architecture (excluded / non-existent files below a
+    known package): such an import is no import of the architecture, with or without a limit, and must not
+    influence what happens to the other imports - whatever the order of the import list (reverse)."""
     from pytestarch.eval_structure.networkxgraph import NetworkxGraph
     from pytestarch.eval_structure_generation.file_import.import_types import AbsoluteImport
 
     edges = [c for c in cands if present(c)]
+    if reverse:
+        edges = edges[::-1]
+    known = set(nodes)
     try:
         g = NetworkxGraph(list(nodes), [AbsoluteImport(x, y) for x, y in edges], k)
     except Exception as e:  # noqa: BLE001
@@ -73,7 +80,7 @@ def construction_outcome(nodes, cands, k, present):
     got_imp = {(u, v) for u, v, d in g._graph.edges(data=True) if not d["inherits"]}
     got_hier = {(u, v) for u, v, d in g._graph.edges(data=True) if d["inherits"]}
     want_nodes = {trunc(n, k) for n in nodes}
-    want_imp = {(trunc(x, k), trunc(y, k)) for x, y in edges if trunc(x, k) != trunc(y, k)}
+    want_imp = {(trunc(x, k), trunc(y, k)) for x, y in edges if trunc(x, k) != trunc(y, k) and x in known and y in known}
     want_hier = {(n.rsplit(".", 1)[0], n) for n in want_nodes if "." in n}
     if got_nodes != want_nodes:
         return ("MISMATCH", f"modules {sorted(want_nodes)}", f"modules {sorted(got_nodes)}")
@@ -93,6 +100,23 @@ def candidates(nodes, limit: int, seed: int):
     c = [(x, y) for x in files for y in nodes if x != y and not is_anc_or_self(x, y)]
     random.Random(seed).shuffle(c)
     return sorted(c[:limit])
+
+
+def unknown_candidates(nodes, real: list, limit: int):
+    """Imports of names that are not modules of the architecture, chosen so that they flatten onto the same node
+    pair as a real candidate and sort before / after it in the import list."""
+    out = []
+    for x, y in real:
+        if "." not in y:
+            continue
+        pkg = y.rsplit(".", 1)[0]
+        for leaf in ("a0", "zz0"):
+            u = (x, f"{pkg}.{leaf}")
+            if u[1] not in nodes and u not in out and not is_anc_or_self(u[1], x):
+                out.append(u)
+        if len(out) >= limit:
+            break
+    return out[:limit]
 
 
 # ---------------------------------------------------------------------------------------------------
@@ -165,11 +189,16 @@ def instances(tier: str) -> list[dict]:
         nodes = TREES[t]
         for k in range(0, depth(nodes) + 1):
             out.append({"part": "construct", "tree": t, "k": k, "ncand": 9 if tier == "quick" else 12})
+            if k < depth(nodes):
+                out.append({"part": "construct", "tree": t, "k": k, "ncand": 10 if tier == "quick" else 13, "unknown": 4})
     out.append({"part": "construct", "tree": "D5a", "k": None, "ncand": 9})
     # (d) end to end on a symbolic file system: level_limit scan == quotient of the unlimited scan of the same tree
     for mp, lines in (("r", "qualified"), ("r/a", "qualified"), ("r/a", "parent-relative"), ("r/a/x", "deep"), ("r", "deep")):
         for k in (1, 2) if tier == "quick" else (0, 1, 2, 3):
             out.append({"part": "scan", "mp": mp, "lines": lines, "k": k, "cap": CAPS[tier]})
+    # ... and with external libraries included (externals deeper than the limit are truncated like every other name)
+    for k in (0, 1, 2):
+        out.append({"part": "scan", "mp": "r", "lines": "externals", "k": k, "cap": CAPS[tier]})
     ctrees = ["D5a", "D5b", "D5c", "D5p"] if tier == "quick" else ["D5a", "D5b", "D5c", "D5p", "D6a", "D6b"]
     for t in ctrees:
         nodes = TREES[t]
@@ -185,7 +214,7 @@ def label_of(i) -> str:
     if i["part"] == "kernel":
         return f"kernel {i['name']}"
     if i["part"] == "construct":
-        return f"construct {i['tree']} k={i['k']}"
+        return f"construct {i['tree']} k={i['k']}" + (" +imports of unknown modules, list order symbolic" if i.get("unknown") else "")
     if i["part"] == "scan":
         return f"scan module_path={i['mp']} lines={i['lines']} level_limit={i['k']}"
     return f"verdict {i['tree']} k={i['k']}: {RuleSpec.from_json(i['spec']).label()}"
@@ -207,16 +236,20 @@ def work_construct(inst) -> dict:
     nodes = TREES[inst["tree"]]
     k = inst["k"]
     cands = candidates(nodes, inst["ncand"], runner.seed())
+    if k is not None and inst.get("unknown"):
+        real = candidates(nodes, inst["ncand"] - inst["unknown"], runner.seed())
+        cands = sorted(real + unknown_candidates(nodes, real, inst["unknown"]))
 
     def fn():
         if k is None:
             return _no_limit(nodes, cands)
-        return construction_outcome(nodes, cands, k, lambda c: ENGINE.branch(("i", c[0], c[1])) == 1)
+        rev = bool(inst.get("unknown")) and ENGINE.branch(("reverse",)) == 1
+        return construction_outcome(nodes, cands, k, lambda c: ENGINE.branch(("i", c[0], c[1])) == 1, rev)
 
     def make_payload(assign):
-        return {"kind": "construct", "tree": inst["tree"], "nodes": nodes, "k": k, "imports": [list(c) for c in cands if assign.get(("i", c[0], c[1]), 0) == 1], "cands": [list(c) for c in cands]}
+        return {"kind": "construct", "tree": inst["tree"], "nodes": nodes, "k": k, "imports": [list(c) for c in cands if assign.get(("i", c[0], c[1]), 0) == 1], "cands": [list(c) for c in cands], "reverse": assign.get(("reverse",), 0)}
 
-    return check_no_mismatch(label_of(inst), fn, 1 << 14, make_payload, replay_detail, all_keys=[(("i", x, y), 2) for x, y in cands], degenerate=True, sample={"modules": nodes, "level_limit": k, "candidate_imports": len(cands)})
+    return check_no_mismatch(label_of(inst), fn, 1 << 15, make_payload, replay_detail, all_keys=[(("i", x, y), 2) for x, y in cands] + ([(("reverse",), 2)] if inst.get("unknown") else []), degenerate=True, sample={"modules": nodes, "level_limit": k, "candidate_imports": len(cands)})
 
 
 def _no_limit(nodes, cands):
@@ -235,14 +268,28 @@ def _no_limit(nodes, cands):
 # --- (d) end to end ------------------------------------------------------------------------------------------
 
 
-def _scan(base: str, mp_rel: str, k):
+EXT_CANDS = {"r": "dir", "r/a": "dir", "r/a/x": "dir", "r/a/x/u.py": "file", "r/b.py": "file"}
+EXT_LINES = {
+    "r/a/x/u.py": ["import xml.etree.ElementTree", "import os.path", "import os", "import r.b"],
+    "r/b.py": ["import xml.etree", "import r.a.x.u", "from os import path"],
+}
+
+
+def ext_model():
+    from vf.engine.stubs_fs import FSModel
+
+    return FSModel(EXT_CANDS, EXT_LINES, fixed={p: True for p in EXT_CANDS})
+
+
+def _scan(base: str, mp_rel: str, k, include_externals: bool = False):
     import os
 
     from pytestarch import get_evaluable_architecture
     from vf.engine.stubs_fs import graph_view
 
     try:
-        ev = get_evaluable_architecture(os.path.join(base, "r"), os.path.join(base, mp_rel), level_limit=k)
+        kw = {"exclude_external_libraries": False} if include_externals else {}
+        ev = get_evaluable_architecture(os.path.join(base, "r"), os.path.join(base, mp_rel), level_limit=k, **kw)
     except Exception as e:  # noqa: BLE001
         return ("ERROR", type(e).__name__, str(e)[:120])
     return ("SCAN",) + graph_view(ev)
@@ -277,12 +324,13 @@ def work_scan(inst) -> dict:
     from vf.engine.stubs_fs import symfs
     from vf.props import c04
 
-    model = c04.make_model({"mp": inst["mp"], "lines": inst["lines"], "fixed": ({"r/ab.py": False, "r/a_b": False, "r/notes.txt": False, "r/empty": False, "r/a/__init__.py": False} if inst["lines"] == "deep" else {"r/notes.txt": False, "r/empty": False})})
+    ext = inst["lines"] == "externals"
+    model = ext_model() if ext else c04.make_model({"mp": inst["mp"], "lines": inst["lines"], "fixed": ({"r/ab.py": False, "r/a_b": False, "r/notes.txt": False, "r/empty": False, "r/a/__init__.py": False} if inst["lines"] == "deep" else {"r/notes.txt": False, "r/empty": False})})
     mp, k = inst["mp"], inst["k"]
 
     def fn():
         with symfs(model):
-            return scan_judge(mp, k, _scan("/symfs", mp, None), _scan("/symfs", mp, k))
+            return scan_judge(mp, k, _scan("/symfs", mp, None, ext), _scan("/symfs", mp, k, ext))
 
     def make_payload(assign):
         return {"kind": "scan", "inst": {x: inst[x] for x in ("mp", "lines", "k")}, "assign": [[list(kk), v] for kk, v in sorted(assign.items(), key=str)]}
@@ -367,12 +415,13 @@ def replay_detail(payload: dict):
         from vf.props import c04
 
         i = payload["inst"]
-        model = c04.make_model({"mp": i["mp"], "lines": i["lines"], "fixed": ({"r/ab.py": False, "r/a_b": False, "r/notes.txt": False, "r/empty": False, "r/a/__init__.py": False} if i["lines"] == "deep" else {"r/notes.txt": False, "r/empty": False})})
+        ext = i["lines"] == "externals"
+        model = ext_model() if ext else c04.make_model({"mp": i["mp"], "lines": i["lines"], "fixed": ({"r/ab.py": False, "r/a_b": False, "r/notes.txt": False, "r/empty": False, "r/a/__init__.py": False} if i["lines"] == "deep" else {"r/notes.txt": False, "r/empty": False})})
         assign = {tuple(kk): v for kk, v in payload["assign"]}
-        d = tempfile.mkdtemp(prefix="c09_")
+        d = tempfile.mkdtemp(prefix="c09_", dir=os.environ.get("VERIF_SCRATCH"))
         try:
             model.materialise(assign, d)
-            o = scan_judge(i["mp"], i["k"], _scan(d, i["mp"], None), _scan(d, i["mp"], i["k"]))
+            o = scan_judge(i["mp"], i["k"], _scan(d, i["mp"], None, ext), _scan(d, i["mp"], i["k"], ext))
         finally:
             shutil.rmtree(d, ignore_errors=True)
         ex, txt = model.concrete(assign)
@@ -389,9 +438,10 @@ def replay_detail(payload: dict):
             finally:
                 ENGINE.assign = {}
         else:
-            o = construction_outcome(nodes, cands, k, lambda c: c in imps)
+            o = construction_outcome(nodes, cands, k, lambda c: c in imps, bool(payload.get("reverse")))
         ok = o[0] == "OK"
-        return ok, f"NetworkxGraph(modules={nodes}, imports={sorted(imps)}, level_limit={k}): " + ("quotient as specified" if ok else f"expected {o[1]}, got {o[2]}"), {"outcome": [str(x) for x in o]}
+        order = [c for c in cands if c in imps][:: -1 if payload.get("reverse") else 1]
+        return ok, f"NetworkxGraph(modules={nodes}, imports={order}, level_limit={k}): " + ("quotient as specified" if ok else f"expected {o[1]}, got {o[2]}"), {"outcome": [str(x) for x in o]}
     spec = RuleSpec.from_json(payload["spec"])
     edges = [tuple(e) for e in payload["edges"]]
     o_full = cls(evaluate(build_rule(spec), real_architecture(nodes, edges), with_message=False))
